@@ -150,10 +150,11 @@ func TestVerif_C08_RtmpRead(t *testing.T) {
 	defer m.Finish(t)
 	m.Rule("rtmpread: generated sessions (library writer; reference chunker with interleaving); for each: EVERY cut offset 0..N (all structure " +
 		"boundaries +-2 plus a PRNG sample when N > 8 KiB) under a PRNG segmentation, and an injected sentinel error at EVERY read call index under " +
-		"{whole, random, 1-byte (N<=2000)} segmentation; completion offsets from the reference parser; distinct = (session, fault position)")
+		"{whole, random, 1-byte (N<=2000)} segmentation, each once as a permanent and once as a transient (one call only) failure; completion offsets from the reference parser; distinct = (session, fault position)")
 	n := m.N(40, 12000)
 	m.Require("cut_offsets_enumerated", int64(n*100))
 	m.Require("read_call_indexes_enumerated", int64(n*20))
+	m.Require("transient_read_faults_enumerated", int64(n*20))
 	m.Require("sessions_exhaustive_in_offsets", int64(n/2))
 	mon.Parallel(n, func(w, i int) {
 		r := m.Rand("sess", i)
@@ -246,6 +247,24 @@ func TestVerif_C08_RtmpRead(t *testing.T) {
 						continue
 					}
 					if !verifCheckPrefixS(m, fmt.Sprintf("c08:rtmp-read-fault:v%d", variant), rep, msgs, ends, rd.Offset(), got, err, true, sentinel) {
+						return
+					}
+					// the same fault as a TRANSIENT one (a deadline, an interrupted call): only call k fails, later calls would go on
+					// delivering the rest of the stream.  The operation in progress at call k must still return the transport's error;
+					// an error that is dropped shows as a message that was never sent (the bytes behind the fault, shifted)
+					var rt *vnet.CutReader
+					if si == 1 {
+						rt = &vnet.CutReader{Data: data, Cut: N, Seg: vnet.SegRandom(vrand.New(uint64(i)*7919+uint64(k)), 200), FailAtCall: k}
+					} else {
+						rt = &vnet.CutReader{Data: data, Cut: N, Seg: mk(), FailAtCall: k}
+					}
+					rt.Err, rt.DataWithErr, rt.Transient = sentinel, variant%2 == 1, true
+					got, err = verifReadUntilError(rt, len(msgs)+1)
+					m.Count("transient_read_faults_enumerated", 1)
+					if rt.Reads < k {
+						continue
+					}
+					if !verifCheckPrefixS(m, fmt.Sprintf("c08:rtmp-transient-read-fault:v%d", variant), rep, msgs, ends, rt.Offset(), got, err, true, sentinel) {
 						return
 					}
 				}
